@@ -616,6 +616,10 @@ class Gen:
                         break
                 else:
                     bs = []
+                    rb = dict(flat.regbases)
+                    rb[r] = bs
+                    if not all(c03.lin(rb, j) is not None for j in down):
+                        continue            # dropping base links can destroy C3 consistency of a descendant too
                 line = "rbases|%d|%s" % (r, " ".join(map(str, bs)))
             elif k == "rebuild":
                 line = "rebuild|%d" % r
